@@ -34,6 +34,7 @@ def run(ctx):
     c_no_mutation(ctx)
     d_subflow_resume(ctx)
     e_assignment(ctx)
+    f_decision_priority(ctx)
 
 
 # ---------------------------------------------------------------------------------
@@ -516,3 +517,45 @@ def e_assignment(ctx):
                     why = "the store is guarded by `%s`, which is not true for return value %r: `$x = execute a` then keeps the OLD value of $x, unlike an assignment" % (first_line(g, 70), rv)
         ctx.check("C14.e.assignment", RT1, qualname(fn), first_line(st), ok, why, line=st.lineno)
         ctx.check("C14.e.assignment", RT1, qualname(fn), "value stored", src(st.value) == "return_value", "the value recorded is the action's return value", line=st.lineno)
+
+
+def f_decision_priority(ctx):
+    """Flows that decide on the CURRENT event outrank a step that a flow not triggered by this event still has pending from earlier history.  Decided: the
+    next step recorded for a not-triggered flow carries a priority modifier strictly between 0 and 1, the modifier enters the recorded priority, and a
+    recorded step is only replaced by a strictly higher priority."""
+    t = ctx.tree.ast(FLOWS1)
+    cns = find_function(t, "compute_next_state")
+    rec = find_function(t, "_record_next_step")
+    if cns is None or rec is None:
+        raise AnalysisError("compute_next_state / _record_next_step not found", anchor=FLOWS1 + "::compute_next_state")
+    stale = None
+    for i in [x for x in ast.walk(cns) if isinstance(x, ast.If)]:
+        if "trigger_event_types" in src(i.test) and "not in" in src(i.test):
+            stale = i
+    if stale is None:
+        raise AnalysisError("branch for flows not triggered by the current event not found", anchor=FLOWS1 + "::compute_next_state::not-triggered")
+    calls = [c for st in stale.body for c in ast.walk(st) if isinstance(c, ast.Call) and src(c.func) == "_record_next_step"]
+    params = [a.arg for a in rec.args.args]
+    for c in calls:
+        mod = None
+        for k in c.keywords:
+            if k.arg and "priority" in k.arg:
+                mod = k.value
+        if mod is None and len(c.args) > 3:
+            mod = c.args[3]
+        ok = isinstance(mod, ast.Constant) and isinstance(mod.value, (int, float)) and 0 < mod.value < 1
+        ctx.check("C14.f.decision-priority", FLOWS1, "compute_next_state", first_line(c, 80), ok,
+                  "a pending step of a flow NOT triggered by the current event is recorded with priority modifier %s (< 1)" % (src(mod) if mod is not None else None) if ok else
+                  "the pending step of a flow not triggered by the current event is recorded at full priority: on a replayed history a stale step (e.g. `execute generate_user_intent` of an earlier turn) "
+                  "ties with - and, being first, beats - `process user input` for the new message, so the input rails are skipped", line=c.lineno)
+    if not calls:
+        ctx.note("C14.f: flows not triggered by the current event record no next step")
+    modp = [p for p in params if "priority" in p]
+    uses = [a for a in ast.walk(rec) if isinstance(a, ast.Assign) and src(a.targets[0]).endswith("next_step_priority")]
+    ok = bool(uses) and (not calls or (bool(modp) and all(any(isinstance(x, ast.Name) and x.id == modp[0] for x in ast.walk(a.value)) and "priority" in src(a.value) for a in uses)))
+    ctx.check("C14.f.decision-priority", FLOWS1, "_record_next_step", "modifier enters the recorded priority", ok,
+              "next_step_priority = flow priority x modifier", line=rec.lineno)
+    tests = [i for i in ast.walk(rec) if isinstance(i, ast.If) and "next_step_priority" in src(i.test)]
+    ok = bool(tests) and all(re.search(r"priority\s*>\s*\w+\.next_step_priority|next_step_priority\s*<\s*\w+\.priority", src(i.test)) for i in tests)
+    ctx.check("C14.f.decision-priority", FLOWS1, "_record_next_step", "strictly higher priority replaces", ok,
+              "a recorded next step is replaced only by a flow of strictly higher priority (ties keep the first)", line=rec.lineno)
